@@ -173,6 +173,7 @@ func runC12(c *fw.Ctx, cs fw.Case) {
 			}
 			ns, _ := haltPoints(r, dry.polls, maxEnum/2)
 			c.Distinct(what)
+			moveless := legalCount(b0) == 0
 			for _, n := range ns {
 				cc := &countCtx{limit: n}
 				b, _ := boardOf(h)
@@ -183,7 +184,7 @@ func runC12(c *fw.Ctx, cs fw.Case) {
 				if err != search.ErrHalted {
 					c.Violate("halt:not-reported", "%s cancelled at poll %d of %d returned err=%v: %s", cs.Kind, n, dry.polls, err, what)
 				}
-				handBack(c, "halt:handback", before, b, false, fmt.Sprintf("halt at poll %d of %d: %s", n, dry.polls, what))
+				handBack(c, "halt:handback", before, b, moveless, fmt.Sprintf("halt at poll %d of %d: %s", n, dry.polls, what))
 			}
 		}
 	case "iterative":
